@@ -63,11 +63,19 @@ class SRPolicyTunnel(TunnelTypeTLV):
         parts: list[str] = []
         # Collect segment lists separately to emit as array
         segment_lists: list[str] = []
+        keys: set[str] = set()
         for tlv in self.subtlvs:
             if isinstance(tlv, SegmentListSubTLV):
                 segment_lists.append(tlv.json())
             else:
-                parts.append(tlv.json())
+                # one member per sub-TLV: a repeated preference / priority / binding SID / name sub-TLV gave
+                # the object the same key twice. The first one is rendered.
+                member = tlv.json()
+                key = member.split(':', 1)[0]
+                if key in keys:
+                    continue
+                keys.add(key)
+                parts.append(member)
         if segment_lists:
             parts.append('"segment-lists": [' + ', '.join(segment_lists) + ']')
         return '"sr-policy": {' + ', '.join(parts) + '}'
